@@ -178,6 +178,14 @@ func c12Family(tier universe.Tier) *family {
 			{universe.MapOf(universe.Sc(ref.KI8), universe.SetOf(ni)), universe.MapOf(universe.Sc(ref.KI8), universe.SetOf(en))}} {
 			f.items = append(f.items, mk(fd(1, ref.ReqDefault, pair[0]), fd(2, ref.ReqDefault, pair[1])), mk(fd(5, ref.ReqRequired, pair[1])))
 		}
+		f.items = append(f.items, denseIDs().items...)
+		// named string / byte-slice Go types behave like string / binary, with and without nocopy
+		ns, nb := &ref.Type{Kind: ref.KString, Named: true}, &ref.Type{Kind: ref.KBinary, Named: true}
+		for _, noc := range []bool{false, true} {
+			x := mk(fd(1, ref.ReqDefault, ns), fd(2, ref.ReqOptional, nb), fd(3, ref.ReqOptional, &ref.Type{Kind: ref.KString, Named: true, Ptr: true}), fd(4, ref.ReqDefault, universe.ListOf(ns)), fd(5, ref.ReqDefault, universe.MapOf(ns, nb)))
+			x.Fields[0].NoCopy, x.Fields[1].NoCopy, x.Fields[2].NoCopy = noc, noc, noc
+			f.items = append(f.items, x)
+		}
 		// nocopy and multi-field
 		nc := mk(fd(1, ref.ReqDefault, universe.Sc(ref.KString)), fd(2, ref.ReqRequired, universe.Sc(ref.KBinary)), fd(3, ref.ReqOptional, universe.Sc(ref.KI8)))
 		nc.Fields[0].NoCopy = true
